@@ -2074,6 +2074,59 @@ impl World {
         Ok(r)
     }
 
+    /// C02 at a board that came through the validation gate from *edited* contents (a probe): the
+    /// gate is the only thing standing between sloppy input - a stale en-passant mark, a right
+    /// without its rook - and move generation that trusts the stored position. Every move the
+    /// library's own generator lists there, every move the model lists, and every capture that
+    /// merely looks like en passant is applied through the safe functional path and must be accepted
+    /// exactly when it is legal (seeded changes S-C02-22 and S-C04-22: a gate that lets an
+    /// en-passant mark behind a pawn of the side to move through).
+    fn acceptance_sweep(&mut self, b: &Board) -> Result<(), Violation> {
+        if !self.on(C02) {
+            return Ok(());
+        }
+        let info = Info::of(b);
+        if !info.pos.plausible() {
+            return Ok(());
+        }
+        self.stats.hit("probe.acceptance-sweep");
+        let mut cands: Vec<RMove> = info.pseudo.clone();
+        for mv in owlchess::movegen::semilegal::gen_all(b).iter() {
+            let r = crate::full::rmove_of(mv);
+            if !cands.contains(&r) {
+                self.stats.hit("probe.library-lists-a-move-the-model-does-not");
+                cands.push(r);
+            }
+        }
+        if let Some(e) = info.pos.ep {
+            let e = e as usize;
+            let me = info.pos.white;
+            let (f, r) = (rm::file_of(e), rm::row_of(e));
+            let behind = r + if me { -1 } else { 1 };
+            if (0..8).contains(&behind) {
+                for df in [-1, 1] {
+                    if !(0..8).contains(&(f + df)) {
+                        continue;
+                    }
+                    let s = rm::sq(f + df, r);
+                    if info.pos.sq[s] == rm::cell(me, rm::P) {
+                        let m = RMove { kind: rm::K_EP, cell: rm::cell(me, rm::P), src: s as u8, dst: rm::sq(f, behind) as u8 };
+                        if !cands.contains(&m) {
+                            cands.push(m);
+                        }
+                    }
+                }
+            }
+        }
+        for m in cands {
+            if crate::full::move_of(&m).is_none() {
+                continue;
+            }
+            self.functional_make(b, &info, &MoveLike::Move(m))?;
+        }
+        Ok(())
+    }
+
     fn op_fen_probe(&mut self, text: &str) -> R {
         if !self.on(C02) {
             return Ok(Exec::Skipped);
@@ -2082,6 +2135,7 @@ impl World {
         if let Ok(b) = Board::from_fen(text) {
             self.stats.hit("probe.fen-accepted");
             self.check_valid(&b, &format!("board parsed from FEN {:?}", text))?;
+            self.acceptance_sweep(&b)?;
         }
         Ok(Exec::Done)
     }
@@ -2146,6 +2200,7 @@ impl World {
         };
         self.stats.hit("probe.raw-accepted");
         self.check_valid(&nb, "board converted from an edited raw board")?;
+        self.acceptance_sweep(&nb)?;
         // the by-reference entry point must give the very same board
         match Board::try_from(&raw) {
             Ok(nb2) => {
